@@ -271,7 +271,7 @@ def rhsVal (creator : Obj) (a : Ans) (rhs : String) : Option (Option Name) :=
   if rhs = "current_object->uid" then some creator.uid
   else if rhs = "current_object->euid" then some creator.euid
   else if rhs = "0" then some none
-  else if rhs = "add_uid(<lit:NONAME>)" then some (some "NONAME")
+  else if rhs = "add_uid(<lit:NONAME>)" ∨ rhs = "add_uid(\"NONAME\")" then some (some "NONAME")
   else if rhs = "add_uid(<answer>)" then (match a with
     | .str s => some (some s)
     | _ => none)
@@ -489,5 +489,18 @@ theorem tie_set_master_noroot (cfg : Cfg) (bbRet bbIsString : Bool) (hr : cfg.no
   · rw [(tie_set_master_tree true (!cfg.noRoot) bbRet bbIsString).1]
     cases bbRet <;> cases bbIsString <;> simp [hr]
   · simp [initObjs, hr]
+
+/-- **give_uid_to_object before a master exists = the pre-master objects of `initObjs`**: the writes of the pre-master leaf give
+    "NONAME" / 0 - exactly the uids of the simul_efun object (`cfg.simul`) and of a first master without get_root_uid()
+    (`cfg.noRoot`, see `tie_set_master_noroot`: set_master then writes nothing) -/
+theorem tie_premaster_semantics (cfg : Cfg) (creator : Obj) (a : Ans) (b c d e f g h i j : Bool) :
+    applyWrites creator a (giveUidTree true b c d e f g h i j).writes (none, none) = some (some "NONAME", none) ∧
+    (cfg.simul = true → (initObjs cfg).getLast?.map (fun o => (o.oid, o.uid, o.euid)) = some (simulOid, some "NONAME", none)) ∧
+    (cfg.noRoot = true → (initObjs cfg).head?.map (fun o => (o.uid, o.euid)) = some (some "NONAME", none)) := by
+  refine ⟨?_, ?_, ?_⟩
+  · rw [(tie_giveuid_tree_premaster b c d e f g h i j).1]
+    simp [retLeaf, applyWrites, rhsVal]
+  · intro hs; simp [initObjs, hs]
+  · intro hn; simp [initObjs, hn]
 
 end NV.C20
